@@ -24,7 +24,7 @@ RULE = ("value cases = (operation in {deepcopy/copy, splitUniform/NonUniform/Equ
         "operands before and after, of the result, of the operands after mutating every box/fiber/rank list of the "
         "result, of the result before/after mutating the operands, + flag(attribute values of the operands kept). "
         "read-only cases = two tensors of 1-3 ranks and 1-6 observers from {getPayload(point), | iteration, ^ "
-        "iteration, ==, external: isEmpty/countValues/shape/len/iteration/&/-/str/repr/format/YAML dump/Format "
+        "iteration, ==, iterUncompressed, external: isEmpty/countValues/shape/len/iteration/&/-/str/repr/format/YAML dump/Format "
         "footprints/image rendering twice}; observation = identity snapshots of both tensors before/after + "
         "flag(attribute values kept, two renderings and two dumps byte-identical). distinct = distinct canonical "
         "JSON; non-trivial = some operand has a stored element")
@@ -105,6 +105,8 @@ def obs_coq(o):
         return "RUnion"
     if o[0] == "eq":
         return "REq"
+    if o[0] == "iterunc":
+        return "(RIterUnc %s)" % L.nat(16)
     return "RExternal"
 
 
@@ -213,7 +215,7 @@ def gen_r(rng):
     b = gen_tree(rng, n, 6) if rng.random() < 0.85 else a
     obs = []
     for _ in range(rng.randint(1, 6)):
-        k = rng.choice(["get", "get", "union", "xor", "eq", "ext", "ext", "ext"])
+        k = rng.choice(["get", "get", "union", "xor", "eq", "iterunc", "ext", "ext", "ext"])
         if k == "get":
             obs.append(["get", [rng.randint(0, 6) for _ in range(rng.randint(1, n))]])
         elif k == "ext":
@@ -224,8 +226,8 @@ def gen_r(rng):
 
 
 def streams(tier, rng):
-    nv = 280 if tier == "quick" else 6000
-    nr = 110 if tier == "quick" else 2500
+    nv = 360 if tier == "quick" else 6000
+    nr = 160 if tier == "quick" else 2500
     yield ("value-returning", [gen_v(rng) for _ in range(nv)], False)
     yield ("read-only", [gen_r(rng) for _ in range(nr)], False)
     # the witnesses of S17 / S16 (fixed in the worktree the model describes)
@@ -436,6 +438,9 @@ def run_r(case):
                 pass
         elif o[0] == "eq":
             A.getRoot() == B.getRoot()
+        elif o[0] == "iterunc":
+            for _ in A.getRoot().iterUncompressed():
+                pass
         else:
             ok = _external(o[1], A, B, n) and ok
     s1 = [X.snap(w, A), X.snap(w, B)]
